@@ -414,7 +414,7 @@ func (v *V) finishReturn(fr *Frame, st *State, vals []Val, pos token.Pos) Outcom
 	for _, r := range fr.results {
 		rets = append(rets, st.vars[r])
 	}
-	return Outcome{kind: OutReturn, st: st, rets: rets}
+	return Outcome{kind: OutReturn, st: st, rets: rets, pos: pos}
 }
 
 func (v *V) checkPost(fr *Frame, o Outcome) {
@@ -425,6 +425,12 @@ func (v *V) checkPost(fr *Frame, o Outcome) {
 	v.nReturns++
 	for k, c := range v.spec.Ensures {
 		e := v.specEnv(o.st, v.entry, fr, scope, v.fi.body.Rbrace)
+		if o.pos.IsValid() && o.pos > v.fi.body.Lbrace && o.pos < v.fi.body.Rbrace {
+			// identifiers (witnesses) resolve in the scope of the return statement
+			if sc := v.fi.pkg.types.Scope().Innermost(o.pos); sc != nil {
+				e.scope, e.pos = sc, o.pos
+			}
+		}
 		e.proving = true
 		e.retVals = o.rets
 		// in postconditions, parameters denote their values at entry
